@@ -93,8 +93,12 @@ Pay(r)        == r[4]
 GuardSees(e)  == <<e[1], e[2], Map(e[8], NoPay), Map(e[9], NoPay)>>
 GuardPays(e)  == <<e[1], e[2], Map(e[8], Pay), Map(e[9], Pay)>>
 GuardAsks(e)  == <<e[1], e[2], e[5], e[6], e[7]>>
+GuardUnder(e) == <<e[1], e[2], e[11]>>
 ConfigSeen(e) == <<e[1], e[2], e[3], e[4]>>
 LifePays(e)   == <<e[1], e[2], Map(e[9], Pay)>>
+\* every transition that should carry a payload is there, in place, with that payload (extra transitions are not a
+\* payload matter)
+Delivered(exp, seen) == \A i \in 1 .. Len(exp) : exp[i][4] # 0 => (i <= Len(seen) /\ seen[i] = exp[i])
 SeesStatus(e) == e[10] # <<>>
 StatusSeen(e) == <<e[1], e[2], e[10]>>
 
@@ -105,6 +109,8 @@ CheckEvents(n, ev, obsEv) ==
         sameSeers  == Map(SelectSeq(ev, SeesConfig), Who) = Map(SelectSeq(obsEv, SeesConfig), Who)
     IN
     /\ Diff(n, "ev.traverse",       Map(SelectSeq(ev, IsTraverse), Who),        Map(SelectSeq(obsEv, IsTraverse), Who))
+    \* the registry of requested prongs each guard round ran under (what the requests were resolved to)
+    /\ Diff(n, "ev.guard.requested", Map(SelectSeq(ev, IsGuard), GuardUnder),   Map(SelectSeq(obsEv, IsGuard), GuardUnder))
     /\ Diff(n, "ev.guard",          Map(SelectSeq(ev, IsGuard), Who),           Map(SelectSeq(obsEv, IsGuard), Who))
     /\ sameGuards => Diff(n, "ev.guard.pending",  Map(SelectSeq(ev, IsGuard), GuardSees),     Map(SelectSeq(obsEv, IsGuard), GuardSees))
     /\ sameGuards => Diff(n, "ev.guard.payload",  Map(SelectSeq(ev, IsGuard), GuardPays),     Map(SelectSeq(obsEv, IsGuard), GuardPays))
@@ -113,10 +119,14 @@ CheckEvents(n, ev, obsEv) ==
     /\ Diff(n, "ev.life",           Map(SelectSeq(ev, IsLife), Who),            Map(SelectSeq(obsEv, IsLife), Who))
     /\ sameLife   => Diff(n, "ev.life.payload",   Map(SelectSeq(ev, IsLife), LifePays),       Map(SelectSeq(obsEv, IsLife), LifePays))
     \* C14 : a payload that should have been seen differs or is missing (counted for C14 whatever else differs)
-    /\ (sameGuards /\ \E i \in 1 .. Len(ev) : IsGuard(ev[i]) /\ \E j \in 1 .. Len(ev[i][8]) : ev[i][8][j][4] # 0)
-          => Diff(n, "mon.payload.guard", Map(SelectSeq(ev, IsGuard), GuardPays), Map(SelectSeq(obsEv, IsGuard), GuardPays))
-    /\ (sameLife /\ \E i \in 1 .. Len(ev) : IsLife(ev[i]) /\ \E j \in 1 .. Len(ev[i][9]) : ev[i][9][j][4] # 0)
-          => Diff(n, "mon.payload.life", Map(SelectSeq(ev, IsLife), LifePays), Map(SelectSeq(obsEv, IsLife), LifePays))
+    /\ sameGuards =>
+          LET ge == SelectSeq(ev, IsGuard)  go == SelectSeq(obsEv, IsGuard) IN
+          IF \A i \in 1 .. Len(ge) : Delivered(ge[i][8], go[i][8]) /\ Delivered(ge[i][9], go[i][9]) THEN TRUE
+          ELSE Diff(n, "mon.payload.guard", Map(ge, GuardPays), Map(go, GuardPays))
+    /\ sameLife =>
+          LET le == SelectSeq(ev, IsLife)  lo == SelectSeq(obsEv, IsLife) IN
+          IF \A i \in 1 .. Len(le) : Delivered(le[i][9], lo[i][9]) THEN TRUE
+          ELSE Diff(n, "mon.payload.life", Map(le, LifePays), Map(lo, LifePays))
     /\ sameSeers  => Diff(n, "ev.status",         Map(SelectSeq(ev, SeesStatus), StatusSeen), Map(SelectSeq(obsEv, SeesStatus), StatusSeen))
     /\ Diff(n, "ev.plan",           Map(SelectSeq(ev, IsPlanCb), Who),          Map(SelectSeq(obsEv, IsPlanCb), Who))
     /\ Diff(n, "ev.report",         Map(SelectSeq(ev, IsReport), Who),          Map(SelectSeq(obsEv, IsReport), Who))
@@ -292,8 +302,8 @@ CheckRecord(n, pre, m, rec, entered, src) ==
             /\ \A f \in Fields : Diff(n, f, e[f], rec.post[f])
             /\ Diff(n, "prev",         Map(e.prev, NoPay), Map(rec.post.prev, NoPay))
             /\ Diff(n, "prev.payload", Map(e.prev, Pay),   Map(rec.post.prev, Pay))
-            /\ (\E i \in 1 .. Len(e.prev) : e.prev[i][4] # 0)
-                  => Diff(n, "mon.payload.prev", Map(e.prev, Pay), Map(rec.post.prev, Pay))
+            /\ IF Delivered(e.prev, rec.post.prev) THEN TRUE
+               ELSE Diff(n, "mon.payload.prev", Map(e.prev, Pay), Map(rec.post.prev, Pay))
     /\ CheckEvents(n, m.ev, rec.ev)
     /\ Diff(n, "draws", m.draws, rec.draws)
     /\ Diff(n, "plog", IF Has("PLANS") THEN m.plog ELSE <<>>, rec.plog)
@@ -314,6 +324,8 @@ CheckRecord(n, pre, m, rec, entered, src) ==
     /\ IF \E i \in 1 .. Len(m.rounds) : m.rounds[i][1] = "vetoed" THEN PrintT(<<"NOTE", n, "vetoed">>) ELSE TRUE
     \* ... did user code edit a plan in this step?
     /\ IF m.plog # <<>> THEN PrintT(<<"NOTE", n, "planedit">>) ELSE TRUE
+    \* ... did the plan executor go through a plan's tasks?
+    /\ IF m.pexec THEN PrintT(<<"NOTE", n, "planexec">>) ELSE TRUE
 
 \* silent comparison of everything the functional projections look at
 Agrees(m, rec) ==
